@@ -334,6 +334,15 @@ func c13Child(a *ChildArgs) {
 		}
 		big := "SELECT 1 " + strings.Repeat(" ", tokenizer.MaxInputSize)
 		c13Input(a, big, "E1006")
+		// oversize with line breaks before, at and after the limit offset (the location of the error must stay inside the input)
+		c13Input(a, "SELECT 1\n"+strings.Repeat("-- filler line\n", tokenizer.MaxInputSize/15+2), "E1006")
+		c13Input(a, strings.Repeat(" ", tokenizer.MaxInputSize)+"\n", "E1006")
+		c13Input(a, strings.Repeat(" ", tokenizer.MaxInputSize-1)+"\n\n\n", "E1006")
+		// grammar-stage rejections of well-formed tokens: a number that is not a row count
+		for _, q := range []string{"SELECT a FROM t LIMIT 1.5", "SELECT a FROM t LIMIT 1e3", "SELECT a FROM t LIMIT 99999999999999999999", "SELECT a FROM t LIMIT 5 OFFSET 2.5",
+			"SELECT a FROM t ORDER BY a OFFSET 18446744073709551616 ROWS", "SELECT a FROM t ORDER BY a FETCH FIRST 1.5 ROWS ONLY"} {
+			c13Input(a, q, "")
+		}
 		a.Rec.Sample("lexical", 2, map[string]string{"input": lexicalGarbage[4]})
 	case "reuse":
 		// one long-lived parser and tokenizer, never reset, across hundreds of rejected inputs: every error must be
